@@ -171,6 +171,11 @@ def run_mutants(registry, mutants, models, timeout_ms, seed, only=None, pid=None
     return out
 
 
+def _site(text):
+    import re
+    return re.sub(r"[!@~]\d+", "!", text)
+
+
 def known_findings():
     p = os.path.join(VERIF, "known_findings.jsonl")
     out = []
@@ -309,19 +314,21 @@ def main():
     led_secs = led_full.get("obligations", {}) if isinstance(led_full, dict) else {}
     led_sites = led_full.get("opaque_sites", {}) if isinstance(led_full, dict) else {}
     # ledger obligations that came back undecided (timeout / unknown): one more attempt each with a generous budget;
-    # an obligation discharged in the baseline that cannot be re-discharged with >= 100x its baseline time is a failed obligation
+    # an obligation discharged in the baseline that cannot be re-discharged with >= 100x its baseline time (at least 60 s, at most 120 s of
+    # nominal solver budget) is a failed obligation
     lost = []
     if led:
         from pyvc.solve import retry_alone
         byname = {o["name"]: (r, o) for r in recs for o in r["obligations"]}
         todo = [n for n, why in undecided if n in led and n in byname and byname[n][1]["result"] in ("unknown", "error")]
         if todo:
-            budget = int(min(240000, max(60000, 200 * 1000 * max(led_secs.get(n, 0.5) for n in todo))))
+            budget = int(min(120000, max(60000, 200 * 1000 * max(led_secs.get(n, 0.5) for n in todo))))
             rr = retry_alone([byname[n][1]["_smt2"] for n in todo], budget, 0)
             for n, res in zip(todo, rr):
                 r, o = byname[n]
                 o["retry"] = {"result": res[0], "secs": round(res[3], 1), "budget_ms": budget}
-                new_sites = sorted(set(x.split(" ", 1)[-1] for v in r.get("notes", {}).values() for x in v) - set(led_sites.get(r["function"], [])))
+                # opaque sites are compared modulo the fresh-symbol counters in their names (any edit renumbers them)
+                new_sites = sorted(set(_site(x.split(" ", 1)[-1]) for v in r.get("notes", {}).values() for x in v) - set(_site(y) for y in led_sites.get(r["function"], [])))
                 if res[0] == "unsat":
                     o["result"] = "unsat"
                     undecided = [u for u in undecided if u[0] != n]
@@ -349,7 +356,8 @@ def main():
                "counter_model": o.get("model"), "solver_reason": o.get("reason"), "proof_lost_without_counter_model": bool(o.get("proof_lost")),
                "in_baseline_ledger": o["name"] in led, "failing_input": None}
         found = None
-        if not a.no_native and P.get("replay"):
+        n_replays = len(violations) + len(undec_extra)
+        if not a.no_native and P.get("replay") and n_replays < 3:  # at most three replay searches per run (each is a panel of real runs)
             rr = native(P["replay"]["script"], [str(x) for x in P["replay"].get("args", [])] + ["--obligation", o["name"], "--seed", str(seed)],
                         timeout=P["replay"].get("timeout", 1500))
             rep["native_replay"] = rr
